@@ -45,10 +45,16 @@ Proof. vm_compute. reflexivity. Qed.
    g is unused in p but used by the test variant -> not reported; h only exists in the test variant and is unused -> reported;
    q has U1000 disabled: its unused object is not reported, but what it lists as used still counts *)
 Local Open Scope string_scope.
-Definition o_f := mkObj "/m/p/a.go" 3 6 "f" "func".
-Definition o_g := mkObj "/m/p/a.go" 5 6 "g" "func".
-Definition o_h := mkObj "/m/p/a_test.go" 4 6 "h" "func".
-Definition o_k := mkObj "/m/q/b.go" 2 6 "k" "func".
+Definition o_f := mkObj "/m/p/a.go" 3 6 "f" "func" "/m/p/a.go" 3 6.
+Definition o_g := mkObj "/m/p/a.go" 5 6 "g" "func" "/m/p/a.go" 5 6.
+Definition o_h := mkObj "/m/p/a_test.go" 4 6 "h" "func" "/m/p/a_test.go" 4 6.
+Definition o_k := mkObj "/m/q/b.go" 2 6 "k" "func" "/m/q/b.go" 2 6.
+(* declared after "//line p_tmpl.go:100": the key uses the raw position, the problem is printed at the display position *)
+Definition o_l := mkObj "/m/p/b.go" 9 6 "viaLine" "func" "/m/p/p_tmpl.go" 100 6.
+Example ex_line_directive :
+  predicted [mkRes "m/p" true [] [o_l]; mkRes "m/p" true [o_l] []] = [] /\
+  predicted [mkRes "m/p" true [] [o_l]] = [("/m/p/p_tmpl.go", 100%N, 6%N, "func viaLine is unused")].
+Proof. vm_compute. split; reflexivity. Qed.
 Definition rs : list vresult :=
   [ mkRes "m/p" true [] [o_f; o_g];
     mkRes "m/p" true [o_g] [o_f; o_h];
